@@ -491,7 +491,8 @@ class DependsWorld:
             elif k == 'swap_twice':
                 ops.append({'op': 'swap_twice', 'at': rng.randint(0, cfg['pool']), 'slot': rng.choice(slots), 'n1': rng.randrange(cfg['pool']),
                             'n2': rng.randrange(cfg['pool']), 'how1': weighted(rng, hows), 'how2': weighted(rng, [('equal', 3), ('any', 1), ('first', 1)]),
-                            'back': rng.random() < 0.35, 'poke': rng.choice([None, None] + list(leafs)), 'once': rng.random() < 0.2})
+                            'back': rng.random() < 0.35, 'poke': rng.choice([None, None] + list(leafs)), 'once': rng.random() < 0.2,
+                            'poke_new': rng.choice([None] + list(leafs))})
             elif k == 'subbatch':
                 ops.append({'op': 'subbatch', 'n': rng.randrange(cfg['pool']), 'p': rng.choice(leafs), 'at': rng.randint(0, cfg['pool']),
                             'slot': rng.choice(slots), 'n2': rng.randrange(cfg['pool']), 'how': weighted(rng, [('equal', 4), ('any', 1), ('first', 1)])})
@@ -667,6 +668,7 @@ class DependsWorld:
             k = op['op']
             own_changed = False
             stale_poke = False
+            poked_new = False
             desc = k
             before = snapshot()
             try:
@@ -736,6 +738,14 @@ class DependsWorld:
                             n2 = n1         # a single replacement; the replaced object is modified before the batch ends
                         else:
                             setattr(real(h), sl, pool[n2])
+                            if n2 == was and not poke and op.get('poke_new') and h == 'P':
+                                # back in place, unmodified: nothing changed so far. Now a leaf of the attached object is
+                                # assigned, still inside the batch of the holder: one change, announced by the object itself
+                                counter[0] += 1
+                                setattr(pool[was], op['poke_new'], counter[0])
+                                leaf[was][op['poke_new']] = counter[0]
+                                out.stats['probe.attached_object_modified_inside_the_batch_after_coming_back'] += 1
+                                poked_new = True
                     att[(h, sl)] = n2
                     ever_attached.update((n1, n2))
                     out.stats['probe.slot_replaced_once_in_a_batch' if op.get('once') else 'probe.slot_replaced_twice_in_one_batch'] += 1
@@ -878,6 +888,11 @@ class DependsWorld:
                            (own_changed and m.get('own')))
                 if not changed and unresolved:
                     # the statement decides only dependencies whose path resolves both before and after
+                    out.stats['dontcare.path_unresolved'] += 1
+                    continue
+                if poked_new and unresolved and changed and n_calls == 2:
+                    # one of the method's paths does not resolve: the re-attachment counts for it (nothing to compare), next to
+                    # the change of the attached object itself. The statement decides paths that resolve before and after
                     out.stats['dontcare.path_unresolved'] += 1
                     continue
                 out.stats['decided_method_checks'] += 1
